@@ -35,6 +35,51 @@ type Pool struct {
 	N       int
 	Fresh   bool // a new process per job
 	Timeout time.Duration
+	idle    chan *worker // persistent workers shared by all copies of this pool
+}
+
+func newPool(bin string, args []string, n int, fresh bool, timeout time.Duration) *Pool {
+	return &Pool{Bin: bin, Args: args, N: n, Fresh: fresh, Timeout: timeout, idle: make(chan *worker, 64)}
+}
+
+func (p *Pool) get() (*worker, error) {
+	if !p.Fresh && p.idle != nil {
+		select {
+		case w := <-p.idle:
+			return w, nil
+		default:
+		}
+	}
+	return p.spawn()
+}
+
+func (p *Pool) put(w *worker) {
+	if w == nil {
+		return
+	}
+	if !p.Fresh && p.idle != nil {
+		select {
+		case p.idle <- w:
+			return
+		default:
+		}
+	}
+	w.kill()
+}
+
+// Close kills the idle persistent workers.
+func (p *Pool) Close() {
+	if p.idle == nil {
+		return
+	}
+	for {
+		select {
+		case w := <-p.idle:
+			w.kill()
+		default:
+			return
+		}
+	}
 }
 
 type worker struct {
@@ -182,12 +227,12 @@ func (p *Pool) Run(jobs []*spec.Job, progress func(int)) []JobResult {
 		go func() {
 			defer wg.Done()
 			var w *worker
-			defer func() { w.kill() }()
+			defer func() { p.put(w) }()
 			for i := range idx {
 				if w == nil || p.Fresh {
 					w.kill()
 					var err error
-					w, err = p.spawn()
+					w, err = p.get()
 					if err != nil {
 						out[i] = JobResult{Job: jobs[i], Res: &spec.Result{Error: "spawn: " + err.Error()}}
 						w = nil
